@@ -606,6 +606,7 @@ void ExpressionBuilder::expr_dot(const char* id)
         push_frame(dynamicFrames[expr.get_symbol().get_name()]);
 
         if (!resolve(id, uid)) {
+            popFrame();  // leave the template's scope again before reporting
             expr_false();
             throw UnknownIdentifierError(id);
         }
